@@ -159,9 +159,11 @@ def build_uod(log, hw):
          .with_instrument("VerifUod").with_author("v", "v@example.invalid").with_filename(__file__)
          .with_hardware(hw).with_location("lab")
          .with_hardware_register("In", RegisterDirection.Read)
+         .with_hardware_register("Vol", RegisterDirection.Read)
          .with_hardware_register("Out1", RegisterDirection.Write, safe_value=0.0)
          .with_hardware_register("Out2", RegisterDirection.Write)
          .with_tag(ReadingTag("In", "L/h"))
+         .with_tag(ReadingTag("Vol", "L"))               # a totalizer: rises while the flow In is high
          .with_tag(Tag("Out1", value=5.0, unit=None, direction=TagDirection.Output))
          .with_tag(Tag("Out2", value=7.0, unit=None, direction=TagDirection.Output))
          .with_tag(Tag("Level", value=0.0, unit="L", direction=TagDirection.NA))
@@ -176,7 +178,8 @@ def build_uod(log, hw):
                                        **mk("Set1", complete_after=1, writes=("Out1", "arg")))
          .with_command_regex_arguments(name="Set2", arg_parse_regex=RegexNumber(units=["L/h", "L/min"]),
                                        **mk("Set2", complete_after=1, writes=("Out2", "arg")))
-         .with_command_overlap(["OvA", "OvB"]))
+         .with_command_overlap(["OvA", "OvB"])
+         .with_accumulated_volume("Vol"))
     uod = b.build()
     return uod
 
@@ -188,7 +191,7 @@ def make_hw():
         def __init__(self):
             super().__init__()
             self.mem = {"Out1": 9.9, "Out2": 9.9}       # deliberately not the safe value
-            self.inputs = {"In": 0.0}
+            self.inputs = {"In": 0.0, "Vol": 0.0}
             self.writes = []                               # (values dict) per write_batch since last drain
             self.fail_read = False
             self.fail_write = False
@@ -558,6 +561,8 @@ class EngineRun:
         self.t = round(self.t + dt, 6)
         if inputs:
             self.hw.inputs.update(inputs)
+        if self.hw.inputs.get("In", 0.0) >= 3.0:
+            self.hw.inputs["Vol"] = self.hw.inputs.get("Vol", 0.0) + 0.5       # the totalizer stands still while the flow is low
         self._ev("tickBegin", ms=milli(self.t), dtms=milli(dt), state=self.sys_state())
         exc = "none"
         try:
